@@ -878,7 +878,7 @@ func (g *genState) field(depth int) (zapcore.Field, SX) {
 				xs = append(xs, L(I(4), Str("<nil>")))
 			default:
 				g.fault = true
-				xs = append(xs, L(I(9), L(I(2), Str("PANIC="+sv.(scriptStringer).s))))
+				xs = append(xs, L(I(12), Str("PANIC="+sv.(scriptStringer).s)))
 			}
 		}
 		return zap.Stringers(k, vals), L(I(17), B(key), L(L(xs...), L(), Bool(true)))
